@@ -15,7 +15,7 @@ ID = "C20"
 LEVEL = "exploration"
 TECHNIQUE = "runtime monitoring: differential oracle over exhaustively enumerated small domains + sampled large values"
 RULE = (
-    "value_to_int: every string of length <= 4 (thorough: <= 7) over the alphabet "
+    "value_to_int: every string of length <= 5 (thorough: <= 7) over the alphabet "
     "'0 1 2 7 9 a b f x o u l _ - + space' plus grammar-generated long/upper-case/padded strings and mutations; "
     "align: all (n, a) in 0..130 x -1..33; check_range: all (x, lo, hi) in -2..10; swap16: all 16-bit values; "
     "reverse_bits: widths 1..64; value_to_bytes/round trips: sampled up to 2^512; byte strings of every length 0..65. "
@@ -37,7 +37,7 @@ def selftest(ctx):
 
 
 def cases(tier, seed):
-    maxlen = 7 if tier == "thorough" else 4
+    maxlen = 7 if tier == "thorough" else 5
     # exhaustive strings, chunked by the first character (length>=2)
     yield {"kind": "v2i_exh", "len": 0, "first": ""}
     yield {"kind": "v2i_exh", "len": 1, "first": ""}
